@@ -282,6 +282,19 @@ def r17_5(ctx):
                     x = a[1] if (a[0] == "field" and a[1][0] == "bin") else a
                     okr = x[0] == "bin" and x[1].startswith("Sub") and x[2] == ("const", 0) and mentions_field(x[3], "rank", "api::rule::Rule")
         r.ob("fold-agreement:priority-is-minus-rank", okr, h.site if h else f.site, "Route priority = 0 - rule.rank, so ascending priority is the descending rank of the live fold's rule order (R11.2)")
+        # the live fold sees every matched rule once (the layers that store one route in several buckets de-duplicate their
+        # union: R01.7); the trace lists such a route once per bucket, so the list the action trace folds over has to be
+        # de-duplicated, in from_trace_rules or where the routes are collected from the traces
+        SETS = ("std::collections::HashSet", "std::collections::BTreeSet", "std::collections::HashMap", "std::collections::BTreeMap")
+        col = F.fn("router::trace::Trace::get_routes_from_traces", required=False)
+        dd = False
+        for fn_ in [f] + ([col] if col is not None else []):
+            srt = any(cal and cal.name.startswith("sort") for b_ in fn_.all_bodies() for _bi, _t, cal in b_.calls())
+            for b_ in fn_.all_bodies():
+                for _bi, _t, cal in b_.calls():
+                    if cal and ((cal.name in ("insert", "contains", "contains_key", "entry") and cal.adt in SETS) or (cal.name in ("dedup", "dedup_by", "dedup_by_key") and srt and fn_ is f and False)):
+                        dd = True
+        r.ob("fold-agreement:each-rule-once", dd, f.site, "the routes collected from the traces are de-duplicated before the fold" if dd else "a route traced in several buckets (several matching ip ranges) is folded once per bucket: its filters are applied twice in the action trace, once by the live pipeline")
     ctx.run_rule("R17.5", "the action trace folds like the live fold", body, floor=4)
 
 
